@@ -1052,17 +1052,26 @@ static int vnadata_save_common(vnadata_t *vdp, FILE *fp, const char *filename,
      */
     {
 	bool changed = false;
+	bool was_undef[vdip->vdi_format_count + 1];
 
 	for (int i = 0; i < vdip->vdi_format_count; ++i) {
 	    vnadata_format_descriptor_t *vfdp = &vdip->vdi_format_vector[i];
 
+	    was_undef[i] = false;
 	    if (vfdp->vfd_parameter == VPT_UNDEF) {
 		vfdp->vfd_parameter = type;
+		was_undef[i] = true;
 		changed = true;
 	    }
 	}
 	if (changed) {
 	    if (_vnadata_update_format_string(vdip) == -1) {
+		/* keep the format vector consistent with its string */
+		for (int i = 0; i < vdip->vdi_format_count; ++i) {
+		    if (was_undef[i]) {
+			vdip->vdi_format_vector[i].vfd_parameter = VPT_UNDEF;
+		    }
+		}
 		goto out;
 	    }
 	}
